@@ -116,6 +116,17 @@ func NewKey(c Cfg) *xmss.XMSS {
 	return k
 }
 
+// newKey is NewKey with a constructor that panics turned into a reported failure (nil is returned).
+func (e *explorer) newKey(c Cfg) (k *xmss.XMSS) {
+	defer func() {
+		if r := recover(); r != nil {
+			k = nil
+			e.fail("C01", "constructor-refused-a-supported-configuration", nil, map[string]any{"config": c.String(), "constructor": []string{"NewXMSSFromSeed", "NewXMSSFromExtendedSeed(GetExtendedSeed())", "NewXMSSFromExtendedSeed(mnemonic)"}[c.Ctor], "observed": fmt.Sprint(r)})
+		}
+	}()
+	return NewKey(c)
+}
+
 type explorer struct {
 	cfg    Cfg
 	res    *Res
@@ -517,7 +528,10 @@ func Closure(c Cfg, keepTrace bool) *Res {
 	for _, ct := range ctors {
 		cc := c
 		cc.Ctor = ct
-		k := NewKey(cc)
+		k := e.newKey(cc)
+		if k == nil {
+			continue
+		}
 		if e.ident == "" {
 			e.ident = identity(k)
 			e.checkKey(k)
@@ -652,12 +666,18 @@ func Chain(c Cfg, maxDist uint64, everyStateCheap bool, keepTrace bool, capIdx u
 	e := &explorer{cfg: c, res: res, keep: keepTrace}
 	e.setup()
 	defer func() { xmss.VerifSeam = nil; xmss.VerifSymbolic = false }()
-	a := NewKey(c)
+	a := e.newKey(c)
+	if a == nil {
+		return res
+	}
 	e.ident = identity(a)
 	e.checkKey(a)
 	cb := c
 	cb.Ctor = 1
-	b := NewKey(cb)
+	b := e.newKey(cb)
+	if b == nil {
+		return res
+	}
 	n := e.numEl
 	last := n
 	if capIdx > 0 && capIdx < n {
@@ -807,7 +827,10 @@ func Lean(c Cfg, from, to uint64, budget time.Duration) *Res {
 	xmss.VerifSeam = nil // no trace: only the algebra's own diagnostics
 	defer func() { xmss.VerifSeam = nil; xmss.VerifSymbolic = false }()
 	deadline := time.Now().Add(budget)
-	k := NewKey(c)
+	k := e.newKey(c)
+	if k == nil {
+		return res
+	}
 	e.checkKey(k)
 	if from > 0 {
 		op := Op{Kind: "setindex", J: uint32(from)}
